@@ -200,3 +200,127 @@ Print Assumptions C08_mono_maps_i64_onto.
 Print Assumptions C08_mono_maps_bool.
 Print Assumptions C08_mono_maps_f64.
 Print Assumptions C08_mono_maps_f64_onto.
+
+(* ===================== theorems added after the first build (deeper proofs) ===================== *)
+From TV Require Import Columnar.OptionalIndex Columnar.OptionalIndexProofs Columnar.MultiValued Columnar.MergeIndex.
+Local Open Scope N_scope.
+
+(* ---- optional index: ANY strictly increasing row list below num_rows, any number of 65 536-row blocks ---- *)
+Theorem C08_optional_index : forall num_rows rows,
+  strictly_increasing rows -> Forall (fun r => r < num_rows) rows ->
+  let I := optional_index_build num_rows rows in
+  (forall doc, oi_rank I doc = Some (spec_rank rows doc)) /\
+  (forall doc, oi_rank_if_exists I doc = spec_rank_if_exists rows doc) /\
+  (forall k, (k < length rows)%nat -> oi_select I (N.of_nat k) = Some (nth k rows 0)) /\
+  (forall r k, oi_rank_if_exists I r = Some k <-> (k < N.of_nat (length rows) /\ nth (N.to_nat k) rows 0 = r)) /\
+  (forall k e, k < N.of_nat (length rows) -> oi_select I k = Some e ->
+               oi_rank I e = Some k /\ oi_rank_if_exists I e = Some k) /\
+  (forall e k, oi_rank_if_exists I e = Some k -> oi_select I k = Some e) /\
+  oi_non_null_docs I = Some rows /\
+  (forall doc, doc < num_rows -> oi_contains I doc = Some (spec_contains rows doc)).
+Proof. exact optional_index_correct. Qed.
+
+(* each block encoding alone: sparse (binary search over sorted u16) and dense (1024 x (u64 bitvec + u16 rank)) *)
+Theorem C08_optional_index_block : forall els,
+  strictly_increasing els -> Forall (fun e => e < 65536) els ->
+  forall v, v = Sparse els \/ v = Dense (dense_serialize els) ->
+  (forall el, el < 65536 -> block_rank v el = spec_rank els el /\ block_rank v el <= el) /\
+  (forall el, el < 65536 -> block_contains v el = spec_contains els el) /\
+  (forall el, el < 65536 -> block_rank_if_exists v el = spec_rank_if_exists els el) /\
+  (forall k, (k < length els)%nat -> block_select v (N.of_nat k) = Some (nth k els 0)).
+Proof. exact optional_index_block_correct. Qed.
+
+(* the dense / sparse choice per block does not matter *)
+Theorem C08_optional_index_any_choice : forall (choose_sparse : N -> list N -> bool) num_rows rows,
+  strictly_increasing rows -> Forall (fun r => r < num_rows) rows ->
+  let I := optional_index_build num_rows rows in
+  let J := index_any choose_sparse num_rows rows in
+  (forall doc, oi_rank J doc = oi_rank I doc) /\
+  (forall doc, oi_rank_if_exists J doc = oi_rank_if_exists I doc) /\
+  (forall k, k < N.of_nat (length rows) -> oi_select J k = oi_select I k).
+Proof. exact optional_index_any_choice. Qed.
+
+(* the u64 primitives of the dense block *)
+Theorem C08_select_u64 : forall bv j, bv < 2 ^ 64 -> j < 64 -> N.testbit bv j = true ->
+  select_u64 bv (popcount (bv mod 2 ^ j)) = j.
+Proof. exact select_u64_spec. Qed.
+Theorem C08_rank_u64 : forall bv j, rank_u64 bv j = popcount (bv mod 2 ^ j).
+Proof. exact rank_u64_spec. Qed.
+
+(* ---- multivalued index: ANY column (any per-row counts) ---- *)
+Theorem C08_multivalued : forall c : column,
+  let I := optional_index_build (N.of_nat (length c)) (mv_docs_with_values c) in
+  let starts := mv_start_offsets 0 c in
+  starts = start_offsets_of_counts 0 (map (@length N) c) /\
+  (forall d, (d < length c)%nat -> nth d c [] <> [] ->
+     mv_range I starts (N.of_nat d) =
+     (N.of_nat (list_sum (map (@length N) (firstn d c))),
+      N.of_nat (list_sum (map (@length N) (firstn d c))) + N.of_nat (length (nth d c [])))) /\
+  (forall doc, nth (N.to_nat doc) c [] = [] -> mv_range I starts doc = (0, 0)) /\
+  (forall doc, mv_values_for_doc I starts (all_values c) doc = values_for_doc c (N.to_nat doc)).
+Proof. exact multivalued_correct. Qed.
+
+Theorem C08_multivalued_v1 : forall c : column,
+  let starts := mv1_start_offsets 0 c in
+  (forall d, (d < length c)%nat ->
+     mv1_range starts (N.of_nat d) =
+     (N.of_nat (list_sum (map (@length N) (firstn d c))),
+      N.of_nat (list_sum (map (@length N) (firstn d c))) + N.of_nat (length (nth d c [])))) /\
+  (forall doc, mv1_values_for_doc starts (all_values c) doc = values_for_doc c (N.to_nat doc)).
+Proof. exact multivalued_v1_correct. Qed.
+
+(* ---- every kind of column index reads its column back ---- *)
+Theorem C08_column_index_read_back : forall k c doc, kind_allows k c -> (N.to_nat doc < length c)%nat ->
+  ci_values_for_doc (ci_of k c) (all_values c) doc = values_for_doc c (N.to_nat doc).
+Proof. exact ci_values_read_back. Qed.
+
+(* ---- merges of column indexes, any number of inputs of any kind ---- *)
+Theorem C08_merge_stacked : forall kcs, inputs_ok kcs ->
+  let cols := stack_inputs kcs in
+  let merged := merge_stacked (map snd kcs) in
+  stack_num_rows cols = N.of_nat (length merged) /\
+  stack_rows stacked_rows_multi cols 0 = Some (mv_docs_with_values merged) /\
+  stacked_start_offsets cols = mv_start_offsets 0 merged.
+Proof. exact stacked_multivalued. Qed.
+
+Theorem C08_merge_stacked_optional : forall kcs, inputs_ok kcs -> no_multi kcs ->
+  stack_rows stacked_rows_optional (stack_inputs kcs) 0 = Some (mv_docs_with_values (merge_stacked (map snd kcs))).
+Proof. exact stacked_optional. Qed.
+
+Theorem C08_merge_stacked_reads : forall kcs doc, inputs_ok kcs ->
+  let merged := merge_stacked (map snd kcs) in
+  forall rows starts, stack_rows stacked_rows_multi (stack_inputs kcs) 0 = Some rows ->
+    starts = stacked_start_offsets (stack_inputs kcs) ->
+    mv_values_for_doc (optional_index_build (stack_num_rows (stack_inputs kcs)) rows) starts
+      (concat (map (fun kc => all_values (snd kc)) kcs)) doc
+    = values_for_doc merged (N.to_nat doc).
+Proof. exact stacked_read_back. Qed.
+
+Theorem C08_merge_shuffled : forall kcs mapping, inputs_ok kcs -> mapping_ok (map snd kcs) mapping ->
+  let cols := shuffle_inputs kcs in
+  let merged := merge_shuffled (map snd kcs) mapping in
+  shuffled_rows cols mapping 0 = Some (mv_docs_with_values merged) /\
+  (exists ns, shuffled_num_values cols mapping = Some ns /\ integrate_num_vals ns = mv_start_offsets 0 merged).
+Proof. exact shuffled_merge. Qed.
+
+Theorem C08_merge_shuffled_reads : forall kcs mapping doc, inputs_ok kcs -> mapping_ok (map snd kcs) mapping ->
+  let merged := merge_shuffled (map snd kcs) mapping in
+  forall rows ns, shuffled_rows (shuffle_inputs kcs) mapping 0 = Some rows ->
+    shuffled_num_values (shuffle_inputs kcs) mapping = Some ns ->
+    mv_values_for_doc (optional_index_build (N.of_nat (length mapping)) rows) (integrate_num_vals ns)
+      (all_values merged) doc
+    = values_for_doc merged (N.to_nat doc).
+Proof. exact shuffled_read_back. Qed.
+
+(* non-vacuity: a two-block index with a dense first block (6000 rows) and a sparse second one *)
+Example optional_index_example :
+  let rows := map (fun i => 3 * N.of_nat i) (seq 0 (N.to_nat 6000)) ++ [70000; 70005] in
+  let I := optional_index_build 70010 rows in
+  oi_select I 5999 = Some 17997 /\ oi_select I 6001 = Some 70005 /\ oi_rank I 70001 = Some 6001 /\
+  oi_rank_if_exists I 17997 = Some 5999 /\ oi_rank_if_exists I 17998 = None /\
+  match oi_metas I with [m0; m1] => match variant m0, variant m1 with Dense _, Sparse _ => True | _, _ => False end | _ => False end.
+Proof. vm_compute. repeat split. Qed.
+
+Print Assumptions C08_optional_index.
+Print Assumptions C08_optional_index_block.
+Print Assumptions C08_optional_index_any_choice.
